@@ -5,7 +5,8 @@
 From Coq Require Import List NArith ZArith Bool Arith String.
 Import ListNotations.
 From V Require Import Base.ConnView Gen.ConnSites Model.C39
-  Proofs.C39Base Proofs.C39Measure Proofs.C39Calls Proofs.C39Flight Proofs.C39Holders Proofs.C39Done Proofs.C39.
+  Proofs.C39Base Proofs.C39Measure Proofs.C39Calls Proofs.C39Flight Proofs.C39Holders Proofs.C39Done Proofs.C39
+  Proofs.C39Progress.
 
 (* ------------------------------------------------------------------ K-gen obligations *)
 (* every updateInFlight critical section of conn.go (function, ordinal, body hash) is a modelled transition *)
@@ -34,9 +35,9 @@ Proof. exact gen_shutting_down_spec. Qed.
 Theorem C39_no_panic : forall p s l pn, reachable p s -> step s l <> Panic pn.
 Proof. exact no_panic. Qed.
 Theorem C39_retire_at_most_once : forall p s l, reachable p s -> step s l <> Panic PRetireTwice.
-Proof. intros p s l R. apply (no_panic p s l PRetireTwice R). Qed.
+Proof. exact retire_at_most_once. Qed.
 Theorem C39_no_transition_after_done_breaks_idle : forall p s l, reachable p s -> step s l <> Panic PNonIdleAfterDone.
-Proof. intros p s l R. apply (no_panic p s l PNonIdleAfterDone R). Qed.
+Proof. exact idle_after_done. Qed.
 
 (* outgoingCalls holds exactly the registered and not yet retired calls *)
 Theorem C39_map_is_registered_unretired : forall p s i c, reachable p s ->
@@ -103,6 +104,18 @@ Proof. exact measure_step. Qed.
 Theorem C39_observation_keeps_measure : forall s l s', step s l = Ok s' -> is_ack l = true -> measure s' = measure s.
 Proof. exact measure_ack. Qed.
 
+(* no internal deadlock: while done is not closed and no asynchronous response is owed by a handler, some step
+   that is not the arrival of new work is enabled (an implementation step, or the completion of a Write / Read /
+   Preempt / Handle the implementation is waiting for) *)
+Theorem C39_no_internal_deadlock : forall p s, reachable p s -> s_done s = false -> s_asyncs s = [] ->
+  exists l s', is_progress l = true /\ step s l = Ok s'.
+Proof. exact no_internal_deadlock. Qed.
+(* with C39_close_progress: every run without new arrivals is finite, and when nothing is left to do
+   (measure 0: every thread has returned, the queue and the pending-async set are empty) done is closed,
+   i.e. Close / Wait can return *)
+Theorem C39_quiescent_is_done : forall p s, reachable p s -> measure s = 0 -> s_done s = true.
+Proof. exact measure_zero_done. Qed.
+
 (* ------------------------------------------------------------------ non-vacuity *)
 Definition resp17 : response := {| rs_id := IInt 1; rs_body := BResult 7 |}.
 (* a call answered by the peer, awaited, then Close *)
@@ -162,3 +175,5 @@ Print Assumptions C39_done_is_stable.
 Print Assumptions C39_closed_once.
 Print Assumptions C39_close_progress.
 Print Assumptions C39_observation_keeps_measure.
+Print Assumptions C39_no_internal_deadlock.
+Print Assumptions C39_quiescent_is_done.
